@@ -97,10 +97,27 @@ func VerifC10Clean() {
 			verifAssert(errClass(e1) == errClass(e2), "verdict-differs-after-clean")
 		case 1:
 			// Clean itself must not change the status of any accepted header, however deep
-			before := h.observeRepo(h.repo)
+			// tip, header at every height, height/status/retrievability of every accepted header;
+			// PreviousHash may turn to "unknown" for headers Clean prunes from memory, but never
+			// to another hash
+			before := h.observeRepoOpt(h.repo, len(h.hash), false)
+			var prevBefore []int
+			for i := range h.hash {
+				ph, _ := h.repo.PreviousHash(h.hash[i])
+				pi := -1
+				if ph != nil {
+					pi = h.indexOfHash(*ph)
+				}
+				prevBefore = append(prevBefore, pi)
+			}
 			err := h.repo.Clean(h.ctx)
 			verifAssert(err == nil, "clean-returns-error")
-			verifAssert(h.observeRepo(h.repo) == before, "clean-changed-reported-state")
+			verifAssert(h.observeRepoOpt(h.repo, len(h.hash), false) == before, "clean-changed-reported-state")
+			for i := range h.hash {
+				if ph, _ := h.repo.PreviousHash(h.hash[i]); ph != nil {
+					verifAssert(h.indexOfHash(*ph) == prevBefore[i], "clean-changed-previous-hash")
+				}
+			}
 			verifReach("cleaned")
 			if len(h.repo.branches) > 2 {
 				verifReach("cleaned-with-3-branches")
